@@ -21,7 +21,7 @@ Block grammar (one directive per line; payloads between <<< and >>>):
   attr <fn> <<< ... >>>          attribute before the fn (e.g. #[verifier::external_body]; logged)
   start <fn> <<< ... >>>         ghost text at the start of the body
   loop <fn> <k> <<< ... >>>      invariant/decreases for the k-th loop of fn (source order, 1-based)
-  beforeloop|loopstart|loopend <fn> <k> <<< ... >>>   ghost text right before loop k / at the start / at the end of its body
+  beforeloop|loopstart|loopend|afterloop <fn> <k> <<< ... >>>   ghost text right before loop k / at the start / at the end of its body / right after it
   forit <fn> <k> <name>          names the ghost iterator of the k-th loop, which must be a `for`
   before <fn> "<anchor>" <<< ... >>>   ghost text before the unique occurrence of anchor in fn
   after  <fn> "<anchor>" <<< ... >>>   ghost text after it
@@ -973,6 +973,11 @@ def build_unit(unit_path, repo=REPO):
                 if int(args[1]) > len(ls_):
                     raise Undecided("LOST-ANCHOR: loop %s of fn %s in %s" % (args[1], args[0], it.where()))
                 it.ghost(ls_[int(args[1]) - 1][3], "\n" + payload + "\n")
+            elif name == "afterloop":
+                ls_ = it.loops(args[0])
+                if int(args[1]) > len(ls_):
+                    raise Undecided("LOST-ANCHOR: loop %s of fn %s in %s" % (args[1], args[0], it.where()))
+                it.ghost(ls_[int(args[1]) - 1][3] + 1, "\n" + payload + "\n")
             elif name == "forit":
                 it.d_forit(args[0], int(args[1]), args[2])
             elif name == "before":
